@@ -116,6 +116,15 @@ def gen_cases(ctx, count):
                 cases[-1]["seed_type"] = rng.choice(["np.int64", "np.uint32", "np.int32", "float", "np.float64"])
                 cases[-1]["seed"] = cases[-1]["seed"] % (2 ** 31 - 1)
                 cases[-1]["twice"] = True
+        if k % 9 == 4:
+            # amounts beyond the range of a C int in one or two cells (2^31 .. 2^36 molecules, a few femtomoles): Poisson mode draws
+            # every entry with its own amount as mean, whatever its size; 'none' passes it through ("large counts", "always terminates")
+            hs = list(state)
+            for e_ in rng.sample(range(len(hs)), min(len(hs), rng.choice([1, 1, 2]))):
+                hs[e_] = float(rng.choice([2 * 10 ** 9 + 1, 2100000000, 2 ** 31 - 1, 2 ** 31, 2 ** 31 + 5, 3 * 10 ** 9 + 1, 2 ** 32 + 3, 5 * 10 ** 9, 2 ** 36 + 7]))
+            for m, o in [("Poisson", rng.choice(OPTIONS)), ("none", rng.choice(OPTIONS)), ("Poisson", "euler")][:rng.choice([2, 3])]:
+                cases.append({"space": space, "kind": kind, "n": n, "ns": ns, "state": hs, "cls": "beyond-int", "mode": m, "option": o,
+                              "seed": seed, "policy": "on_t_sample", "twice": False})
         if rng.random() < 0.5:
             # a script in another unit system (time and quantity): the engine must still see MOLECULES
             # (the deterministic engine works in the script's own quantity unit, so its Poisson / redist processing acts on
